@@ -18,7 +18,7 @@ Definition msg_default : bytes := hex "6e6f7048616e646c65727b2e2e2e7d". (* nopHa
 Definition pres_cascade : list (tbl * bool * bool) := [(TblPres, true, true); (TblPres, false, true); (TblPres, true, false); (TblPres, false, false)].
 Definition pres_stanza : bytes := hex "70726573656e6365". (* presStanza *)
 Definition pres_default : bytes := hex "6e6f7048616e646c65727b2e2e2e7d". (* nopHandler{...} *)
-Definition router_map : list (bytes * bytes) := []. (* stanza local name -> router method *)
+Definition router_map : list (bytes * bytes) := [(hex "6971", hex "6971526f75746572"); (hex "6d657373616765", hex "6d7367526f75746572"); (hex "70726573656e6365", hex "70726573656e6365526f75746572")]. (* stanza local name -> router method *)
 
 Definition reg_handle : tbl * bool * bool * bool := (TblTop, true, true, true). (* table, refuses nil, refuses duplicate, refuses stanza names *)
 Definition reg_iq : tbl * bool * bool * bool := (TblIq, true, true, false). (* table, refuses nil, refuses duplicate, refuses stanza names *)
@@ -54,4 +54,3 @@ Definition wildcard_lookup_arg_presence : name_src := NsZero.
 Definition bufreader_buffers_token_with_error : bool := true. (* a token that comes with an error is appended to the buffer all the same *)
 Definition servemux_fields_touched_after_new : list bytes := []. (*  *)
 Definition forchildren_buffer_is_local : bool := true. (* buf: make(<*ast.ArrayType>,0,10) *)
-(* TRANSLATOR-ERROR: mux/mux.go: Handler: the stanza switch after the cascade has an unexpected shape *)
